@@ -193,8 +193,15 @@ __strpd_card(struct strpd_s *d, const char *sp, struct dt_spec_s s, char **ep)
 		break;
 	case DT_SPFL_N_DSTD:
 		d->y = strtoi_lim(sp, &sp, DT_MIN_YEAR, DT_MAX_YEAR);
+		if (UNLIKELY(d->y < 0 || !*sp)) {
+			/* no separator to skip, the input ends here */
+			break;
+		}
 		sp++;
 		d->m = strtoi_lim(sp, &sp, 0, GREG_MONTHS_P_YEAR);
+		if (UNLIKELY(d->m < 0 || !*sp)) {
+			break;
+		}
 		sp++;
 		d->d = strtoi_lim(sp, &sp, 0, 31);
 		res = 0 - (d->y < 0 || d->m < 0 || d->d < 0);
@@ -535,6 +542,10 @@ __strfd_card(
 			/* it's just bollocks */
 			return 0U;
 		}
+		if (UNLIKELY(bsz < (size_t)prec)) {
+			/* no room */
+			break;
+		}
 		res = ui9999topstr(buf, prec, y, 4U, padchar(s));
 		break;
 	}
@@ -637,12 +648,16 @@ __strfd_card(
 		}
 		break;
 	case DT_SPFL_S_QTR:
-		buf[res++] = 'Q';
-		buf[res++] = (char)(dt_get_quarter(that) + '0');
+		if (LIKELY(bsz >= 2U)) {
+			buf[res++] = 'Q';
+			buf[res++] = (char)(dt_get_quarter(that) + '0');
+		}
 		break;
 	case DT_SPFL_N_QTR:
-		buf[res++] = '0';
-		buf[res++] = (char)(dt_get_quarter(that) + '0');
+		if (LIKELY(bsz >= 2U)) {
+			buf[res++] = '0';
+			buf[res++] = (char)(dt_get_quarter(that) + '0');
+		}
 		break;
 
 	case DT_SPFL_LIT_PERCENT:
@@ -675,7 +690,7 @@ __strfd_card(
 					buf, bsz, yd,
 					3 - (s.pad == DT_SPPAD_OMIT) << 1U,
 					padchar(s));
-			} else {
+			} else if (LIKELY(bsz >= 3U)) {
 				buf[res++] = '0';
 				buf[res++] = '0';
 				buf[res++] = '0';
@@ -689,9 +704,11 @@ __strfd_card(
 			break;
 		case DT_LDN:
 			res = snprintf(buf, bsz, "%u", that.ldn);
+			res = res < bsz ? res : bsz - 1U;
 			break;
 		case DT_JDN:
 			res = snprintf(buf, bsz, "%.6f", that.jdn);
+			res = res < bsz ? res : bsz - 1U;
 			break;
 		default:
 			break;
@@ -820,7 +837,8 @@ __strfd_dur(
 		buf[res++] = '\n';
 		break;
 	}
-	return res;
+	/* snprintf() reports what it would have printed */
+	return res < bsz ? res : bsz - 1U;
 }
 
 #endif	/* INCLUDED_date_core_strpf_c_ */
